@@ -1,11 +1,11 @@
 #!/bin/sh
-# tools/regress_seeds.sh [pattern] -> seeded/REGRESSION.txt
+# tools/regress_seeds.sh [pattern] -> seeded/REGRESSION.txt   (OUT=<file> to shard: patterns such as "C0[1-7]-")
 # Every stored seeded change again, against the machinery AND the repository as they are now (scratch copies
 # only): the patch applies to /repo HEAD, the repository tests pass, its demo still fails with the change
 # (a change whose demo now passes was NEUTRALISED by a later repair of /repo), and the check of its property
 # reports it.  Uses the early-stop mode of the mutation tools (a worker stops at its first violation).
 cd /verif
-OUT=seeded/REGRESSION.txt
+OUT=${OUT:-seeded/REGRESSION.txt}
 : > "$OUT.tmp"
 for d in seeded/*${1:-}*/; do
   n=$(basename "$d"); p=${n%-*}
